@@ -17,9 +17,14 @@ C15 driver.  One line = one whole history on one cache:
   threads : `|`-separated ops executed concurrently after the prefix, `-` if none
   sched   : digits, the order in which the threads win the cache lock; `-` if none
 
-The printed verdicts are what the PROPERTY prescribes (`specVerdict`), `len`/`items` are the model's.
-Mode `hm`: the cache verdict of an `av` whose list has an infinity key is printed as `*` on both
-sides (everything else of such a history is still compared; see known_findings).
+The cache verdict `c=` is the MODEL's own answer: what `runHistory` / `runAll` return for the
+`BlsCache::aggregate_verify` call (thread model with the `invalid_key` flag of the repair 601e785b);
+`Props/C15.lean` proves it equal to the prescription (`cache_agrees_with_plain(_sched)`, `inf_full`).
+`a`/`v` are the prescription (`specVerdict`, = the model's `aggregateVerify`/`verify` by
+`aggregateVerify_spec`/`verify_spec`), `len`/`items` are the model's.
+Mode `hm` (the harness still emits every history with an infinity key in an `av` a second time in
+this mode): the cache verdict of an `av` whose list has an infinity key is printed as `*` on both
+sides, everything else of such a history is compared.  In mode `h` nothing is masked.
 -/
 namespace ChiaModel.Drv.C15
 open ChiaModel ChiaModel.Drv ChiaModel.Bls
@@ -81,11 +86,17 @@ def tf (b : Bool) : String := if b then "T" else "F"
 
 def hasInf (ps : List Pair) : Bool := ps.any Pair.isInf
 
-/-- the verdicts the property prescribes for one input, for every path -/
-def verdicts (masked : Bool) (ps : List Pair) (sig : Sig) : String :=
+/-- the verdict of a finished `aggregate_verify` call of the thread model -/
+def cacheVerdictStr : Option Out → String
+  | some (.verdict b) => tf b
+  | _ => "unfinished"
+
+/-- the verdicts for one input, for every path; `cv` is what the model's cache-assisted call
+returned -/
+def verdicts (masked : Bool) (ps : List Pair) (sig : Sig) (cv : Option Out) : String :=
   let spec := specVerdict sig ps
   let inf := hasInf ps
-  let c := if masked && inf then "*" else tf spec
+  let c := if masked && inf then "*" else cacheVerdictStr cv
   let v := match ps with
     | [_] => tf spec
     | _ => "-"
@@ -103,26 +114,24 @@ def itemsStr (c : Cache) : String :=
 
 structure Acc where
   inf : Bool := false       -- some `av` has an infinity key
-  infAcc : Bool := false    -- … and the model of the current code accepts it on the cache path
-  yes : Bool := false
-  no : Bool := false
+  yes : Bool := false       -- some cache-assisted call of the model returned true
+  no : Bool := false        -- … returned false
 
-def note (a : Acc) (ps : List Pair) (sig : Sig) (modelVerdict : Bool) : Acc :=
+def note (a : Acc) (ps : List Pair) (modelVerdict : Bool) : Acc :=
   { inf := a.inf || hasInf ps,
-    infAcc := a.infAcc || (hasInf ps && modelVerdict),
-    yes := a.yes || specVerdict sig ps,
-    no := a.no || !specVerdict sig ps }
+    yes := a.yes || modelVerdict,
+    no := a.no || !modelVerdict }
 
 def seqOut (masked : Bool) (op : POp) (r : Option Out × Nat) : String :=
   match op with
-  | .av ps sig => s!"{verdicts masked ps sig},n={r.2}"
+  | .av ps sig => s!"{verdicts masked ps sig r.1},n={r.2}"
   | .len => s!"n={r.2},e={tf (r.2 == 0)}"
   | .bad => "bad-op"
   | _ => s!"n={r.2}"
 
 def noteOp (a : Acc) (op : POp) (o : Option Out) : Acc :=
   match op with
-  | .av ps sig => note a ps sig (match o with | some (.verdict b) => b | _ => false)
+  | .av ps _ => note a ps (match o with | some (.verdict b) => b | _ => false)
   | _ => a
 
 /-- the finitely many pairs a line uses must not collide on their cache keys (`CollisionFree`, the
@@ -138,7 +147,7 @@ def opPairs : POp → List Pair
 
 def threadOut (masked : Bool) (op : POp) (t : Option Thread) : String :=
   match op with
-  | .av ps sig => verdicts masked ps sig
+  | .av ps sig => verdicts masked ps sig (t.bind Thread.out)
   | .len =>
     match t.bind Thread.out with
     | some (.len n) => s!"n={n}"
@@ -164,7 +173,7 @@ def runLine (masked : Bool) (cap : Nat) (ops threads : List POp) (sched : List N
     let c := w.cache
     let full := h.2.any (fun r => r.2 == cap) || c.len == cap
     let u := ((ops ++ threads).map opPairs).flatten.eraseDups
-    let tag := (if a.infAcc then "infacc" else if a.inf then "inf" else "noinf")
+    let tag := (if a.inf then "inf" else "noinf")
       ++ (if full then "+full" else "") ++ (if threads.isEmpty then "" else "+conc")
       ++ (if a.yes then "+T" else "") ++ (if a.no then "+F" else "")
       ++ (if collisionFree u then "" else "+KEY-COLLISION")
